@@ -20,6 +20,7 @@ func propC04(c *Ctx) {
 	c.ruleEmitterTaint()
 	c.rulePseudoTotal()
 	c.ruleFormatFollowsNotation()
+	c.ruleKeyKind()
 	c.ruleRegexChecked()
 	c.rulePathVarTypes()
 	c.ruleDepCalls("C04-DEP-CALLS")
@@ -524,5 +525,88 @@ func (c *Ctx) ruleFormatFollowsNotation() {
 	}
 	if n == 0 {
 		r.Undecided("C04-FORMAT-FOLLOWS-NOTATION", "sites", "no variable of type SerializeFormat found", "")
+	}
+}
+
+// ---------- inherited properties are matched by key and kind of key ----------
+
+// ruleKeyKind: an object may hold the key `@k` twice: once as a reference to the user type @k (any key that is a @k)
+// and once as the literal key "@k". The schema library accepts that, so the build does. The allOf inheritance runs
+// lazily, at the first serialisation; if it takes the two for one property it reports an override that nobody can be
+// told about any more: the project was accepted, ToJson fails.
+func (c *Ctx) ruleKeyKind() {
+	r := c.R
+	r.Rule("C04-KEY-KIND", "in the functions of package catalog that the allOf inheritance runs (reachable from ExchangeContent.processAllOf, executed at the first serialisation): every equality test on the Key of an ExchangeContent stands in a conjunction with an equality test on IsKeyUserTypeRef - a key that refers to a user type and a literal key of the same spelling are different properties, and a clash found only then is an error of an accepted project", 1)
+	root := c.fn("catalog", "ExchangeContent.processAllOf")
+	if root == nil {
+		r.Undecided("C04-KEY-KIND", "anchor", "catalog.(*ExchangeContent).processAllOf not found", "")
+		return
+	}
+	var keyF, kindF *types.Var
+	if tn := c.P.LookupType("catalog", "ExchangeContent"); tn != nil {
+		if st, ok := tn.Type().Underlying().(*types.Struct); ok {
+			for i := 0; i < st.NumFields(); i++ {
+				switch st.Field(i).Name() {
+				case "Key":
+					keyF = st.Field(i)
+				case "IsKeyUserTypeRef":
+					kindF = st.Field(i)
+				}
+			}
+		}
+	}
+	if keyF == nil || kindF == nil {
+		r.Undecided("C04-KEY-KIND", "anchor", "fields Key / IsKeyUserTypeRef of catalog.ExchangeContent not found", "")
+		return
+	}
+	mentions := func(f *Fn, e ast.Expr, fld *types.Var) bool {
+		found := false
+		ast.Inspect(e, func(n ast.Node) bool {
+			if sel, ok := n.(*ast.SelectorExpr); ok && f.Pkg.TypesInfo.Uses[sel.Sel] == types.Object(fld) {
+				found = true
+			}
+			return true
+		})
+		return found
+	}
+	n := 0
+	for _, f := range c.reachableInPkg(root) {
+		inspectWithStack(f.Decl.Body, func(nd ast.Node, stack []ast.Node) bool {
+			be, ok := nd.(*ast.BinaryExpr)
+			if !ok || be.Op != token.EQL || !(mentions(f, be.X, keyF) || mentions(f, be.Y, keyF)) {
+				return true
+			}
+			if isNil(f.Pkg, be.X) || isNil(f.Pkg, be.Y) {
+				return true // Key == nil: is there a key at all
+			}
+			n++
+			key := fmt.Sprintf("%s | %s", f.Name(), exprString(be))
+			var top ast.Expr = be
+			for i := len(stack) - 1; i >= 0; i-- {
+				if b2, ok := stack[i].(*ast.BinaryExpr); ok && b2.Op == token.LAND {
+					top = b2
+					continue
+				}
+				if _, ok := stack[i].(*ast.ParenExpr); ok {
+					continue
+				}
+				break
+			}
+			kind := false
+			for _, a := range impliedAtoms(top, true) {
+				if b2, ok := ast.Unparen(a.e).(*ast.BinaryExpr); ok && a.holds && b2.Op == token.EQL && mentions(f, b2.X, kindF) && mentions(f, b2.Y, kindF) {
+					kind = true
+				}
+			}
+			if kind {
+				r.Ok("C04-KEY-KIND", key, "the kind of key is compared in the same condition", c.pos(be.Pos()))
+			} else {
+				r.Bad("C04-KEY-KIND", key, "properties are matched by the text of the key alone: `@k: ...` (a key that refers to the user type @k) inherited through allOf is taken for the literal key \"@k\" of the inheriting object, and the first serialisation of the accepted project fails with 'it is not allowed to override the property'", c.pos(be.Pos()))
+			}
+			return true
+		})
+	}
+	if n == 0 {
+		r.Undecided("C04-KEY-KIND", "sites", "the allOf inheritance compares no keys: the matcher no longer recognises how own and inherited properties are told apart", "")
 	}
 }
